@@ -78,4 +78,30 @@ def newWithTries (outcomes : Nat → OpenResult) : Nat → Nat → Result → Re
 
 def open_ (outcomes : Nat → OpenResult) : Result := newWithTries outcomes 11 0 ⟨false, 0, 0⟩
 
+/-!
+## Re-opening an existing tree: `PmTree::new` = `MerkleTree::load` or else `MerkleTree::new`
+
+`PmTree::new` (rln/src/pm_tree_adapter.rs) first tries `pmtree::MerkleTree::load`, whose first step is `SledDB::load`,
+and on ANY error falls back to `pmtree::MerkleTree::new`, whose first step is `SledDB::new` and which then WRITES a fresh
+depth / leaf count / root path. On a location that holds a flushed tree the fallback therefore destroys acknowledged data.
+`loadRetries` says whether `SledDB::load` opens the database through `new_with_tries` (regenerated from the source:
+`Generated.Sled.loadOpensThroughRetry`); before fix 630b389 it called `config.open()` once.
+`outcomes k` is what the k-th `config.open()` of the whole reopening returns (the two calls share the stream).
+Assumed (trusted base): on a flushed database `was_recovered()` is true once the open succeeds.
+-/
+inductive Reopen where
+  | kept | reinitialised | failed
+deriving DecidableEq, Repr
+
+def loadOpen (loadRetries : Bool) (outcomes : Nat → OpenResult) : Result :=
+  if loadRetries then open_ outcomes
+  else match outcomes 0 with
+    | .ok => ⟨true, 1, 0⟩
+    | _ => ⟨false, 1, 0⟩
+
+def reopenExisting (loadRetries : Bool) (outcomes : Nat → OpenResult) : Reopen :=
+  let l := loadOpen loadRetries outcomes
+  if l.success then .kept
+  else if (open_ (fun k => outcomes (k + l.attempts))).success then .reinitialised else .failed
+
 end Zk.Retry
